@@ -179,6 +179,10 @@ func perts(b *baseCtx, th bool) []pert {
 			continue
 		}
 		ps = append(ps, pert{Kind: "scheme-not-enabled", AltEnabled: s})
+		if b.scheme == "digest-md5" {
+			// the same credentials in their other legal spelling: no algorithm field (= MD5, RFC 2617)
+			ps = append(ps, pert{Kind: "scheme-not-enabled-implicit-md5", AltEnabled: s})
+		}
 	}
 	if sm == int(auth.VerifyMethodDigestSHA256) {
 		ps = append(ps, pert{Kind: "scheme-not-enabled", AltNil: true})
